@@ -349,8 +349,67 @@ pub fn exec(out: &mut Out, line: &str) -> (String, bool, Vec<(String, String)>) 
                 Err(_) => ("panic".into(), false, vec![]),
             }
         }
+        "freshseq" if a.len() == 3 => {
+            let seed: u64 = a[2].parse().unwrap_or(0);
+            match guard(|| fresh_sequence(seed)) {
+                Ok(Ok(n)) => {
+                    out.oracle_ok();
+                    (format!("ok ## {} setter calls on one workbook, all salts pairwise distinct", n), true, vec![])
+                }
+                Ok(Err(e)) => {
+                    out.oracle_fail(Fail::new("salt-not-fresh-across-calls").with("op", line).with("detail", &e));
+                    (format!("ok ## {}", e.replace(' ', "_")), true, vec![])
+                }
+                Err(_) => {
+                    out.oracle_fail(Fail::new("setter-panic").with("op", line));
+                    ("panic".into(), false, vec![])
+                }
+            }
+        }
         _ => ("bad-op".into(), false, vec![]),
     }
+}
+
+/// One workbook object, a sequence of setter calls over the three kinds (same and different passwords,
+/// a kind set again while the other verifiers are in place).  "The salt is fresh on every call": the salt a
+/// call leaves behind differs from EVERY salt seen before on this object (in any of the three slots), the
+/// other two slots are left alone, and the stored hash is the ECMA-376 hash of that call's password.
+fn fresh_sequence(seed: u64) -> Result<usize, String> {
+    let mut rng = Rng::new(seed ^ 0xC15F);
+    let mut book = umya_spreadsheet::new_file();
+    let pws = ["same", "same", "other", "", "same"];
+    let mut seen: Vec<String> = vec![];
+    let mut calls = 0usize;
+    let order: Vec<usize> = match seed % 4 {
+        0 => vec![1, 2, 1, 2, 0, 0],          // workbook, revisions, workbook again, revisions again, sheet twice
+        1 => vec![2, 1, 2, 0, 1, 2],
+        2 => vec![0, 1, 2, 2, 1, 0],
+        _ => (0..6).map(|_| rng.below(3) as usize).collect(),
+    };
+    for (i, k) in order.iter().enumerate() {
+        let kind = KINDS[*k];
+        let pw = pws[(i + seed as usize) % pws.len()];
+        let before: Vec<Option<Obs>> = KINDS.iter().map(|kd| observe(&book, kd)).collect();
+        apply_setter(&mut book, kind, pw);
+        calls += 1;
+        let after: Vec<Option<Obs>> = KINDS.iter().map(|kd| observe(&book, kd)).collect();
+        let me = after[*k].as_ref().ok_or("no protection object")?;
+        if seen.contains(&me.salt) {
+            return Err(format!("call {} ({} password) left a salt that was already used on this workbook: {}", i, kind, me.salt));
+        }
+        let salt = ind::unb64(&me.salt).ok_or("salt not base64")?;
+        if salt.len() != 16 || ind::b64(&ind::ecma_pw_hash(pw, &salt, me.spin)) != me.hash {
+            return Err(format!("call {} ({} password): stored hash is not the ECMA-376 hash of the password under the stored salt", i, kind));
+        }
+        for (j, kd) in KINDS.iter().enumerate() {
+            // (a protection object that did not exist before the call has no verifier to keep)
+            if j != *k && before[j].is_some() && before[j].as_ref().map(|o| o.show()) != after[j].as_ref().map(|o| o.show()) {
+                return Err(format!("call {} ({} password) changed the {} verifier", i, kind, kd));
+            }
+        }
+        seen.push(me.salt.clone());
+    }
+    Ok(calls)
 }
 
 pub fn passwords(tier: Tier, rng: &mut Rng) -> Vec<String> {
@@ -407,6 +466,10 @@ pub fn gen(tier: Tier, seed: u64) -> Vec<String> {
         for (k, kind) in KINDS.iter().enumerate() {
             ops.push(format!("c15 set {} {} {}", kind, hex(pw), (i + k) % 3));
         }
+    }
+    // freshness across calls and kinds on ONE workbook object (exploration: randomness is not a functional property)
+    for s in 0..(if tier == Tier::Quick { 4 } else { 16 }) {
+        ops.push(format!("c15 freshseq {}", s));
     }
     ops
 }
